@@ -469,6 +469,7 @@ def run_cmptotal(P, rep, rule="R-CMPTOTAL"):
     """Comparators handed to sort_by: stable sort only; a PartialOrd::partial_cmp whose None is
     mapped to a constant makes the comparator a non-total order."""
     n = 0
+    _sort_ordinals = {}
     for fn in sorted(P.fns.values(), key=lambda f: f.id):
         if fn.crate not in LIB_CRATES or "::test" in fn.id:
             continue
@@ -482,7 +483,9 @@ def run_cmptotal(P, rep, rule="R-CMPTOTAL"):
             if not (f["name"].startswith("std::slice::") or "slice" in f["name"] or "Vec" in f["name"]):
                 continue
             n += 1
-            site = "%s %s#%d" % (fn.key, last, sum(1 for o in rep.obligations if o["site"].startswith(fn.key + " " + last)))
+            _ord = _sort_ordinals.setdefault((fn.key, last), 0)
+            _sort_ordinals[(fn.key, last)] = _ord + 1
+            site = "%s %s#%d" % (fn.key, last, _ord)
             where = P.where(fn, t["line"])
             if "unstable" in last and _is_array_filter(fn):
                 rep.viol(rule, site + " stability", where, "array filter sorts with `%s`: equal elements may be reordered (sort must be stable)" % last)
@@ -508,6 +511,16 @@ def run_cmptotal(P, rep, rule="R-CMPTOTAL"):
             verdicts = []
             for cf in cmp_fns:
                 verdicts += comparator_partial_sites(P, cf, 3, set())
+            if _is_array_filter(fn):
+                # nil goes last: somewhere in the sort pipeline (key extraction or comparator) nil-ness is asked of the values
+                cmp_values = any(_pipeline_asks(P, cf, 3, set(), _IS_VALUE_CMP) for cf in cmp_fns)
+                cmp_nil = any(_pipeline_asks(P, cf, 3, set(), _IS_NIL) for cf in cmp_fns)
+                if cmp_values and not cmp_nil:
+                    rep.viol(rule, site + " nil-last", where,
+                             "the comparator orders liquid values (ValueViewCmp) without asking ValueView::is_nil of them: a present-but-nil value is not ordered last")
+                elif not cmp_values and not _pipeline_asks(P, fn, 3, set(), _IS_NIL):
+                    rep.viol(rule, site + " nil-last", where,
+                             "the sort pipeline never asks ValueView::is_nil of the compared values: a present-but-nil value is not ordered last")
             if verdicts:
                 for (g, line, what) in verdicts[:3]:
                     rep.viol(rule, site, P.where(g, line),
@@ -515,6 +528,45 @@ def run_cmptotal(P, rep, rule="R-CMPTOTAL"):
             else:
                 rep.ok(rule, site, where, "comparator built from Ord::cmp / total comparisons only")
     rep.analysed[rule + ".sort_sites"] = n
+
+
+def _IS_NIL(P, fn, f):
+    return f["id"].endswith("ValueView::is_nil")
+
+
+def _IS_VALUE_CMP(P, fn, f):
+    if f["id"].rsplit("::", 1)[1] not in ("partial_cmp", "cmp", "lt", "le", "gt", "ge"):
+        return False
+    st = P.tstr(fn.crate, f["self_ty"]) if "self_ty" in f else ""
+    return "ValueViewCmp" in st or "ValueViewCmp" in f["name"] or "values::Value" in st or "ValueView" in st
+
+
+def _pipeline_asks(P, fn, depth, seen, pred):
+    if fn.id in seen or depth < 0:
+        return False
+    seen.add(fn.id)
+    for bi, t in P.calls(fn):
+        f = t.get("f")
+        if not f:
+            continue
+        if pred(P, fn, f):
+            return True
+        for tg in P.callee_targets(t):
+            g = P.fns.get(tg)
+            if g is not None and g.crate in LIB_CRATES and (g.kind == "closure" or not g.impl):
+                if _pipeline_asks(P, g, depth - 1, seen, pred):
+                    return True
+        for a in t["args"]:
+            ol = op_local(a)
+            if ol:
+                tyj = P.local_tyj(fn, ol[0])
+                if tyj["k"] == "closure" and tyj["id"] in P.fns:
+                    if _pipeline_asks(P, P.fns[tyj["id"]], depth - 1, seen, pred):
+                        return True
+            elif a[0] == "k" and "fn" in a[1] and a[1]["fn"]["id"] in P.fns:
+                if _pipeline_asks(P, P.fns[a[1]["fn"]["id"]], depth - 1, seen, pred):
+                    return True
+    return False
 
 
 def _is_array_filter(fn):
